@@ -5,12 +5,10 @@ From Coq Require Import Sorting.Permutation.
 From CKC Require Import Base.Prelude Base.Reflect Base.SortN Spec.Layout Spec.Poker.
 From CKC Require Import Proofs.CardFacts Proofs.SortFacts Proofs.BitFacts Proofs.FiveFacts Proofs.PokerFacts
   Proofs.RankedFacts Proofs.ShapeFacts.
+From CKC Require Export Model.Search.
 Open Scope N_scope.
 
 (* ---- enumerating a list with positions ------------------------------------------------------ *)
-Fixpoint enum_from {A} (n : N) (l : list A) : list (N * A) :=
-  match l with [] => [] | x :: r => (n, x) :: enum_from (N.succ n) r end.
-
 Lemma enum_from_split {A} (P : N * A -> bool) (l : list A) n :
   forallb P (enum_from n l) = true ->
   forall pre x post, l = pre ++ x :: post -> P (n + N.of_nat (length pre), x) = true.
